@@ -22,6 +22,7 @@ EXPLANATION = (
     "redraw - runs user code only inside the loop's capturing try (shared with C13); (4) ORDER: _update passes input through input_filter before process_input and hands on the filter's "
     "result; in process_input unhandled_input is not reachable when the widget handled the key/mouse event and is reached (or the redraw command) when it did not."
     ' Added after seed round 3: signal_restore is understood also when folded into a loop over (signal, saved handler) pairs and the restored expression may replace only a None / false saved value by SIG_DFL; (5) inside the batch loop of process_input the top widget (and anything derived from it) is read afresh for every event.'
+    ' Round 4: a signal that signal_init() does not replace (SIGCONT) is restored only under a flag raised where it is replaced; the Twisted capturing wrapper catches BaseException (C13.1).'
 )
 NOT_DECIDED = "That the terminal really ends up in its initial modes (needs a pty), delivery order across reads, redraw-before-wait timing, failures inside MainLoop.start()/stop() themselves."
 ASSUMPTIONS = ["glib_loop.py cannot be imported here; its reports are informational only."]
